@@ -129,6 +129,7 @@ static std::string kind;
 // (network2 / network3: that many nodes, each with its own memory storage; session.server.ips/ports list them all)
 static std::vector<std::unique_ptr<cppcms::impl::tcp_cache_service> > tcp_svcs;
 static std::vector<booster::shared_ptr<sessions::session_storage_factory> > tcp_backends;
+static std::vector<int> tcp_ports;
 static bool is_network() { return kind.compare(0,7,"network")==0; }
 static std::string files_dir;
 static std::string base_dir=".";
@@ -263,7 +264,7 @@ static std::string do_new(std::vector<std::string> const &w)
 {
 	if(w.size()!=6) return "bad-op";
 	pool.reset(); factory=0;
-	tcp_svcs.clear(); tcp_backends.clear();
+	tcp_svcs.clear(); tcp_backends.clear(); tcp_ports.clear();
 	if(!files_dir.empty()) { rm_dir(files_dir); files_dir.clear(); }
 	jars.clear(); issued.clear(); mentioned.clear(); calls.clear(); saved_keys.clear();
 	std::string loc=w[1]; kind=w[2];
@@ -306,6 +307,7 @@ static std::string do_new(std::vector<std::string> const &w)
 				}
 				ips.push_back("127.0.0.1"); ports.push_back(port);
 			}
+			tcp_ports=ports;
 			factory=new logging_factory(new sessions::tcp_factory(ips,ports),tcp_backends[0]->get());
 		}
 		else return "bad-op";
@@ -473,6 +475,22 @@ static std::string run(std::vector<std::string> const &w)
 	if(w.empty()) return "bad-op";
 	if(w[0]=="new") return do_new(w);
 	if(w[0]=="req" || w[0]=="req2") return do_req(w);
+	if(w[0]=="drop" && w.size()==1) {
+		// fault: every node's network front-end is stopped and started again on the same port over the same
+		// session_storage object (the records persist); the client's established connections are dead afterwards
+		if(!pool.get()) return "bad-op";
+		for(size_t i=0;i<tcp_svcs.size();i++) {
+			tcp_svcs[i].reset();
+			for(int attempt=0;;attempt++) {
+				try {
+					tcp_svcs[i].reset(new cppcms::impl::tcp_cache_service(booster::intrusive_ptr<cppcms::impl::base_cache>(),tcp_backends[i],1,"127.0.0.1",tcp_ports[i]));
+					break;
+				}
+				catch(std::exception const &) { if(attempt>200) throw; usleep(10000); }
+			}
+		}
+		return "ok";
+	}
 	if(w[0]=="gc" && w.size()==2) {
 		if(!pool.get()) return "bad-op";
 		virtual_now=strtoll(w[1].c_str(),0,10);
